@@ -39,6 +39,28 @@ def prepare(scratch, units):
                     it = rs.find_item(text, ex["item"])
                 except rs.ScanError as e:
                     raise Undecided("lost anchor: %s in %s (%s)" % (ex["item"], ex["file"], e))
+                if "let" in ex:
+                    # statement slice: the initialiser expression of one `let` of the fn body, wrapped
+                    # into a function whose parameters are the free names of that expression
+                    body = text[it.body_open + 1:it.body_close]
+                    mbody = rs.mask(body)
+                    mm = re.search(r"\blet\s+%s\s*(?::[^=;]+)?=\s*" % re.escape(ex["let"]), mbody)
+                    if not mm:
+                        raise Undecided("lost anchor: `let %s` in %s :: %s" % (ex["let"], ex["file"], ex["item"]))
+                    j = mm.end()
+                    depth = 0
+                    while j < len(mbody) and not (mbody[j] == ";" and depth == 0):
+                        depth += mbody[j] in "([{"
+                        depth -= mbody[j] in ")]}"
+                        j += 1
+                    expr = body[mm.end():j].strip()
+                    for a, b in ex.get("subst", {}).items():
+                        expr = expr.replace(a, b)
+                    parts.append("// statement slice of %s :: %s : `let %s = ...;`  (substitutions %s)\npub %s {\n    %s\n}\n"
+                                 % (ex["file"], " :: ".join(ex["item"]), ex["let"], ex.get("subst", {}), ex["as_fn"], expr))
+                    edits.append("extract the initialiser of `let %s` from %s :: %s as `%s` (rest of the function dropped; substitutions %s)"
+                                 % (ex["let"], ex["file"], " :: ".join(ex["item"]), ex["as_fn"], ex.get("subst", {})))
+                    continue
                 parts.append("// extracted verbatim from %s :: %s\n%s\n" % (ex["file"], " :: ".join(ex["item"]), text[it.start:it.end]))
                 edits.append("extract verbatim %s :: %s into a stand-alone crate (enclosing item and rest of file dropped)"
                              % (ex["file"], " :: ".join(ex["item"])))
